@@ -2,6 +2,7 @@ package samlsim
 
 import (
 	"encoding/base64"
+	"encoding/json"
 	"fmt"
 	"net/http/httptest"
 	"net/url"
@@ -30,7 +31,8 @@ type winStep struct {
 	SkewMs   int64    `json:"sp_skew_ms"`
 	ArtIssue int64    `json:"artifact_issue_ms,omitempty"`
 	Spec     RespSpec `json:"response"`
-	Classes  []string `json:"classes"` // generator's intent per bound (informational)
+	Classes  []string `json:"classes"`                 // generator's intent per bound (informational)
+	Lattice  int      `json:"lattice_point,omitempty"` // 1 + index of the enumerated lattice point (0: sampled case)
 }
 
 const (
@@ -67,7 +69,57 @@ func drawMargin(g *Rng, tol int64) (int64, string) {
 	}
 }
 
+// latticeClasses: the four positions the property's quantifier names per instant.
+var latticeClasses = []string{"far-in", "in+1ms", "out-1ms", "far-out"}
+
+func latticeMargin(class string) int64 {
+	switch class {
+	case "in+1ms":
+		return 1
+	case "out-1ms":
+		return -1
+	case "far-out":
+		return -3_600_000
+	}
+	return 3_600_000
+}
+
+// genLattice enumerates the lattice {far-in, +1ms, -1ms, far-out}^6 over the six bounds of a
+// one-assertion, two-confirmation response (point = idx in base 4); knobs, entry, skew, layout
+// and lexical form stay random.
+func genLattice(g *Rng, idx uint64) *Plan {
+	k := winKnobs{
+		MaxIssueDelayMs: Pick(g, int64(1000), 7000, 90_000, 660_000, 7_200_000),
+		MaxClockSkewMs:  Pick(g, int64(0), 1000, 180_000, 1_020_000),
+	}
+	st := winStep{Kind: "deliver", Entry: Pick(g, "xml", "xml", "post"), Lattice: int(idx) + 1}
+	st.SkewMs = Pick(g, int64(0), 1000, -1000, 250_000, -250_000)
+	st.DelayMs = Pick(g, int64(0), 500, 60_000, 7_000_000) + g.Int63n(1000)
+	x := st.DelayMs + st.SkewMs
+	mid, mcs := k.MaxIssueDelayMs, k.MaxClockSkewMs
+	digit := func(i int) string { return latticeClasses[(idx>>(2*uint(i)))&3] }
+	spec := RespSpec{ID: "id-resp-0", Issuer: sp(idpEntity), Destination: spBase + "/saml/acs", InResponseTo: "id-req", Status: saml.StatusSuccess, TimeForm: g.Intn(7)}
+	spec.IssueMs = x + latticeMargin(digit(0)) - mid
+	layout := g.Intn(3)
+	spec.Sign = layout != 1
+	a := AsrtSpec{ID: "id-as-0-0", Issuer: idpEntity, NameID: marker("nid", 0), Audiences: []string{spBase + "/saml/metadata"}, Sign: layout != 0, SessionIndex: "si"}
+	a.IssueMs = x + latticeMargin(digit(1)) - mid
+	a.NotBefore = i64(x - latticeMargin(digit(2)) + mcs)
+	a.NotOnOrAfter = i64(x + latticeMargin(digit(3)) - mcs)
+	a.Confs = []ConfSpec{
+		{NotOnOrAfter: i64(x + latticeMargin(digit(4)) - mcs), Recipient: spBase + "/saml/acs", InResponseTo: "id-req"},
+		{NotOnOrAfter: i64(x + latticeMargin(digit(5)) - mcs), Recipient: spBase + "/saml/acs", InResponseTo: "id-req"},
+	}
+	st.Classes = []string{"resp-issue:" + digit(0), "as0-issue:" + digit(1), "as0-nb:" + digit(2), "as0-noa:" + digit(3), "as0-conf0:" + digit(4), "as0-conf1:" + digit(5)}
+	spec.Assertions = []AsrtSpec{a}
+	st.Spec = spec
+	return &Plan{Knobs: mustJSON(k), Steps: []json.RawMessage{mustJSON(st)}}
+}
+
 func genWindows(g *Rng, tier string) *Plan {
+	if g.Run%2 == 1 { // every other run walks the lattice systematically
+		return genLattice(g, (g.Run/2)%4096)
+	}
 	k := winKnobs{
 		MaxIssueDelayMs: Pick(g, int64(1000), 7000, 90_000, 660_000, 7_200_000),
 		MaxClockSkewMs:  Pick(g, int64(0), 1000, 180_000, 1_020_000),
@@ -243,6 +295,10 @@ func execWindows(t *testing.T, p *Plan) *Result {
 			observed = "ACCEPT(" + as.ID + ")"
 		}
 		res.logf("step %d %s form=%d layout=%s classes=%v expect=%s observed=%s", si, st.Entry, st.Spec.TimeForm, layoutOf(&st.Spec), st.Classes, expect, observed)
+		if st.Lattice > 0 {
+			res.Extra["lattice_runs"]++
+			res.Lattice = append(res.Lattice, st.Lattice-1)
+		}
 		if nonFar > 0 {
 			res.Nontrivial = true
 			res.fire("delay")
